@@ -437,6 +437,23 @@ theorem C03_failure_after_a_passing_check_example :
     ((run .copy (init repo) history).log.map (fun d => (d.rid, d.target))) = [(1, 0), (1, 1), (2, 1)] ∧
     statusOf (run .copy (init repo) history).repo 0 = some "offline" := by decide
 
+/-- The history of seed C03-h, on the model: requests 1 and 2 arrive while endpoint 0 is healthy and hold the same
+    (old) reading of it; request 1's attempt on endpoint 0 fails (endpoint 0 offline) and it fails over; a health check
+    readmits endpoint 0; then request 2's attempt on endpoint 0 — made from its old reading, which the property lets it
+    use — fails as well.  That failure is a new fact although the reading it was made from is an old one: endpoint 0 is
+    offline again, and request 3, which arrives afterwards, sends it nothing.  (`C03_marked_failed_excluded` with
+    `before` = everything up to request 2's failed attempt.)  The long-lived histories of the harness (`life`) walk
+    the production stack through this and the neighbouring orders. -/
+theorem C03_failure_from_an_old_reading_after_a_readmission_example :
+    let repo : Repo := [⟨0, 300, "healthy", 0⟩, ⟨1, 200, "healthy", 0⟩]
+    let history : List Op := [.arrive 1 (fun _ => true), .arrive 2 (fun _ => true),
+      .attempt 1 (fun l => l.head?) (.failBefore true), .healthResult 0 "healthy",
+      .attempt 2 (fun l => l.head?) (.failBefore true),
+      .attempt 1 (fun l => l.head?) (.ok ⟨200, [], []⟩), .attempt 2 (fun l => l.head?) (.ok ⟨200, [], []⟩),
+      .arrive 3 (fun _ => true), .attempt 3 (fun l => l.head?) (.ok ⟨200, [], []⟩)]
+    ((run .copy (init repo) history).log.map (fun d => (d.rid, d.target))) = [(1, 0), (2, 0), (1, 1), (2, 1), (3, 1)] ∧
+    statusOf (run .copy (init repo) history).repo 0 = some "offline" := by decide
+
 /-! ### "Every load balancer returns a member of the list it was given or an error" -/
 
 /-- Re-export of `Olla.Props.C06.selectors_member`. -/
